@@ -119,6 +119,11 @@ where
     R: for<'a> Rootable<'a>,
 {
     context: Box<Context>,
+    // `R` must be mentioned in a field other than the last one: with the (possibly unsized) root
+    // as the only field that depends on `R`, `Box<Arena<R1>>` would coerce to `Box<Arena<R2>>`
+    // whenever `Root<'static, R1>: Unsize<Root<'static, R2>>` - checked at the brand `'static`
+    // only, not for every brand.
+    _no_unsize: PhantomData<R>,
     root: Root<'static, R>,
 }
 
@@ -144,7 +149,11 @@ where
             // and lets us stay compatible with older versions of Rust
             let mc: &'static Mutation<'_> = &*(context.mutation_context() as *const _);
             let root: Root<'static, R> = f(mc);
-            Arena { context, root }
+            Arena {
+                context,
+                _no_unsize: PhantomData,
+                root,
+            }
         }
     }
 
@@ -157,7 +166,11 @@ where
             let context = Box::new(Context::new());
             let mc: &'static Mutation<'_> = &*(context.mutation_context() as *const _);
             let root: Root<'static, R> = f(mc)?;
-            Ok(Arena { context, root })
+            Ok(Arena {
+                context,
+                _no_unsize: PhantomData,
+                root,
+            })
         }
     }
 
@@ -177,6 +190,7 @@ where
         };
         Arena {
             context: self.context,
+            _no_unsize: PhantomData,
             root: new_root,
         }
     }
@@ -197,6 +211,7 @@ where
         };
         Ok(Arena {
             context: self.context,
+            _no_unsize: PhantomData,
             root: new_root,
         })
     }
